@@ -29,7 +29,7 @@ func init() {
 		if r.Bool(0.6) {
 			var txs []int
 			for i, st := range pg.Steps {
-				if st.K == prog.STx && st.End == "" {
+				if st.K == prog.STx && (st.End == "" || st.End == "manual") {
 					txs = append(txs, i)
 				}
 			}
